@@ -41,6 +41,22 @@ CLAIMED = {
         "both siblings. Wire equality of the two calling styles per value is not claimed.",
         "Trusted: jinja2 parser, ast; proto-plus field assignment semantics.",
         "DESIGN.md 4/C05"),
+    "C06": (
+        "dominance + slot rules on the inlined routing block of both client skeletons; ast pattern checks of field_headers / to_regex",
+        "Decides that the routing block dominates the call, that explicit parameters are applied in declared order through the "
+        "anchored RoutingParameter.to_regex() with one key tested and stored, that the header is appended only when something "
+        "matched, that implicit routing pairs the raw name with the disambiguated attribute for every variable of the first "
+        "non-empty HTTP verb, and that REST forwards metadata as headers. The regex language over arbitrary strings is not claimed.",
+        "Trusted: api_core routing_header.to_grpc_metadata (URL-encoding); Python re semantics.",
+        "DESIGN.md 4/C06"),
+    "C07": (
+        "classification-table pattern rules (ast) + control-flow / who-may-write rules on pager skeletons + wiring slots",
+        "Decides the AIP-4233 classification table on Method.paged_result_field (each lookup is type-checked on the very field "
+        "looked up; first repeated field; None otherwise), the page loop's shape and statement order in every pager class "
+        "(sync/async, list/map), that only page_token is ever written to the copied request, and the client wiring and naming. "
+        "Behaviour over concrete page histories follows by reading and is not mechanised.",
+        "Trusted: generator semantics of yield / async for.",
+        "DESIGN.md 4/C07"),
     "C09": (
         "key->field->slot tables: ast pattern matching of _get_retry_and_timeout + keyword slots of wrapped-method tables",
         "Decides the selector and first-match lookup, the service-config key to RetryInfo field table, unit conversion, the "
